@@ -415,6 +415,45 @@ func (x *cmpCtx) compare(observed []obs, model []mitem, exhausted bool) bool {
 			}
 			os = rev
 		}
+		// Values can repeat among the versions of one key (empty values, deletes), so first ask
+		// whether ANY order-preserving assignment of the observed versions to live model versions
+		// covers every required one; only if none exists is the greedy walk below used to name
+		// what is wrong.
+		{
+			runEnded := exhausted || k != keyOrder[len(keyOrder)-1]
+			clean := true
+			for _, o := range os {
+				if o.verr != nil {
+					clean = false
+				}
+			}
+			memo := map[[2]int]bool{}
+			var feasible func(i, jj int) bool
+			feasible = func(i, jj int) bool {
+				if jj == len(m.vers) {
+					return i == len(os)
+				}
+				key := [2]int{i, jj}
+				if v, ok := memo[key]; ok {
+					return v
+				}
+				v := m.vers[jj]
+				res := false
+				switch {
+				case v.dead:
+					res = feasible(i, jj+1)
+				case i < len(os) && bytes.Equal(v.val, os[i].val) && feasible(i+1, jj+1):
+					res = true
+				case !v.required || !runEnded:
+					res = feasible(i, jj+1)
+				}
+				memo[key] = res
+				return res
+			}
+			if clean && feasible(0, 0) {
+				continue
+			}
+		}
 		matched := make([]bool, len(m.vers))
 		j := 0
 		for _, o := range os {
